@@ -28,8 +28,8 @@ DESIGN_REF = "DESIGN.md §1 C10"
 RULE = (
     "(a) one case = (program, argument specs) with at least one list / lazy-list argument, program = table key or "
     "modifier applied to table keys; (b) one case = (value spec, how it enters: preloaded or list literal, copy-op, "
-    "up to three elements each optionally preceded by literal operands); (a2) every key of arity 1..3 on 14 degenerate "
-    "list shapes ([], [[]], [[], 1], [\"\", 0], lazy [] ...) in each argument position against 5-7 typical values in the "
+    "up to three elements each optionally preceded by literal operands); (a2) every key of arity 1..3 on 18 degenerate or deep "
+    "list shapes ([], [[]], [[], 1], [\"\", 0], lazy [], [[0, [0, 0]], 0] ...) in each argument position against 5-7 typical values in the "
     "others; (b2) the value is made by the program itself (15 producers: endless, infinite-flagged, lazily mapped / "
     "filtered / zipped lists), then copy-op and element, and every holder must read (first 10 items, 3 levels) what "
     "the producer's result reads when run alone. Only normally completed executions are "
@@ -604,7 +604,9 @@ def run_case_b(vspec, mode, copy_idx, groups, res, shrink=True):
 
 # ------------------------------------------------------------- produced values
 DEGENERATE = [[], [[]], [[], 0], [[], 1], [0, []], [[0], 1], [[], []], [""], ["", 0], [0], [1, 2], [2, [], 1],
-              {"lazy": []}, {"lazy": [[], 1]}]
+              {"lazy": []}, {"lazy": [[], 1]},
+              # deeper than the generators' usual two levels
+              [[0, [0, 0]], 0], [[[1]]], [1, [2, [3, [4]]]], {"lazy": [[1, [2, 3]], 4]}]
 TYPICAL = [[1, 2, 3], [[1, 2], [3, 4]], {"lazy": [1, 2, 3]}, 2, "abc", 0, {"fn": "λ1|d;"}]
 TYPICAL3 = [[1, 2, 3], [[1, 2], [3, 4]], {"lazy": [1, 2, 3]}, 2, "abc"]
 PRODUCERS = ["Þp", "ÞF", "Þ!", "Þ∞", "Þp9Ẏ", "5ɾ", "5ɾƛd;", "Þ∞'2%;", "⟨3|1|2⟩ƛ›;", "9ʀṘ", "λ+;⟨1|1⟩Ḟ", "Þ∞ƛ3%;",
